@@ -10,6 +10,7 @@ import KmipModel.Accept
 import KmipModel.Shutdown
 import KmipModel.Client
 import KmipModel.Stream
+import Driver.IoStackIO
 import KmipModel.Io
 /-
   kvdriver: one request per input line, one reply per output line.  Runs the executable model and the
@@ -245,6 +246,8 @@ def step (line : String) : String :=
         | .err e => err e
         | .panic _ => "panic"
     | _, _, _, _ => "bad-op"
+  -- iostk FIN EAGER CHUNKS OPS: the reader-stack model (see Driver/IoStackIO.lean)
+  | ["iostk", fin, eager, chunks, ops] => IoStackIO.cmd fin eager chunks ops
   -- clientstate OP,OP,…: a fresh Client taken through connect-ok (c1) / connect-failed (c0) / close (x) / send (s)
   | ["clientstate", ops] =>
     let parse := fun (t : String) => if t = "c1" then some (Client.COp.connect true) else if t = "c0" then some (Client.COp.connect false)
